@@ -862,7 +862,7 @@ func runStepM(st *scnState, step *scnStep, withMetrics bool) (res stepResult) {
 	}
 	ctxMs := step.CtxMs
 	if ctxMs == 0 {
-		ctxMs = 5000
+		ctxMs = 10000 // no scenario relies on this expiring; on a busy machine 5 s has been seen to pass
 	}
 	ctx, cancel := context.WithTimeout(context.Background(), time.Duration(ctxMs)*time.Millisecond)
 	if step.CancelMs > 0 {
